@@ -44,11 +44,13 @@ func AllQueries(tier string, k int) []Query {
 		add(flow, 1, 4, 3000)
 		add(PatternFamily(3), 1, 4, 3000)
 		add(TailFamily(), 1, 4, 3000)
+		add(ReversalFamily(), 1, 4, 3000)
 		add(CorpusQueries(true), 0, 3, 2000)
 	} else {
 		add(flow, 1, 3, 400)
 		add(PatternFamily(3), 1, 3, 400)
 		add(TailFamily(), 1, 3, 400)
+		add(ReversalFamily(), 1, 3, 400)
 		add(CorpusQueries(true), 1, 3, 200)
 	}
 	if only := os.Getenv("VERIF_ONLY_QUERY"); only != "" { // debugging aid: keep the queries containing this text
